@@ -38,6 +38,7 @@ THEOREMS = [
     "cookie_history", "cookie_header_matches_history", "jar_unique", "reply_cookies_stored_partial",
     "reply_cookies_stored_refuted", "error_replies_leave_jar",
     "writeback_keeps_wire", "writeback_keeps_body", "writeback_has_no_cookie", "resend_carries_the_same",
+    "challenge_credentials_partial", "challenge_credentials_refuted", "same_url_history",
 ]
 
 PRE = "From SV Require Import Lib.Base C15.Base64 C15.Model."
@@ -351,7 +352,20 @@ def run_session(server, sess, clients):
     t = make_transport(sess["kind"], sess["user"], sess["pw"])
     obs = []
     last_req = None       # the previous Request object / its (caller-owned) headers dict
+    cur = (sess["user"], sess["pw"])     # the credentials configured at the time of each send
     for st in sess["steps"]:
+        via_client_creds = None
+        if st.get("creds"):
+            u_new, p_new, how = st["creds"]
+            cur = (u_new, p_new)
+            if how == "client" and st["via"] is not None:
+                via_client_creds = (u_new, p_new)
+            else:
+                try:
+                    t.options.username = u_new
+                    t.options.password = p_new
+                except Exception:   # noqa
+                    pass
         def script(phase, rec, st=st):
             if phase == "accept":
                 return None
@@ -391,8 +405,10 @@ def run_session(server, sess, clients):
             tap.replace = msg if st["replace"] else None
             tap.captured = None
 
-            def call(cl=cl, url=url, st=st):
+            def call(cl=cl, url=url, st=st, cc=via_client_creds):
                 cl.set_options(transport=t, location=url, headers=dict(st["hdrs"]))
+                if cc is not None:
+                    cl.set_options(username=cc[0], password=cc[1])     # reaches the transport's options
                 return cl.service.f("vé")
         res = classify(call)
         if st["via"] is not None:
@@ -400,7 +416,7 @@ def run_session(server, sess, clients):
             msg = cap if isinstance(cap, (bytes, bytearray)) else b"\x00nothing-captured"
         last = server.requests[-1] if server.requests else {"line": b"", "headers": [], "body": b""}
         obs.append({"conns": server.conns, "line": last["line"], "headers": last["headers"],
-                    "body": last["body"], "result": res, "msg": bytes(msg), "reused": reused})
+                    "body": last["body"], "result": res, "msg": bytes(msg), "reused": reused, "creds": cur})
     return obs
 
 
@@ -424,7 +440,7 @@ def c_step(sess, st, ob, clients, blobs):
     action = None if st["via"] is None else clients[st["via"]][2]
     q = "(mkReq %s %s %s %s %s)" % (copt(cbytes(action) if action is not None else None, "bytes"),
                                     cstr(st["path"]), c_hdict(st["hdrs"]), blobs.c(ob["msg"]),
-                                    cbool(bool(ob.get("reused"))))
+                                    c_creds(*ob.get("creds", (sess["user"], sess["pw"]))), cbool(bool(ob.get("reused"))))
     p = "(mkResp %s %s %s %s %s %s %s)" % (
         blobs.copt(st["challenge"]), cN(st["status"]),
         copt(cbytes(st["ce"]) if st["ce"] is not None else None, "bytes"),
@@ -443,11 +459,14 @@ def c_step(sess, st, ob, clients, blobs):
     return "(%s, %s, %s)" % (q, p, o)
 
 
+def c_creds(user, pw):
+    return "(%s, %s)" % (copt(cstr(user) if user is not None else None, "str"),
+                         copt(cstr(pw) if pw is not None else None, "str"))
+
+
 def c_xcase(sess, obs, clients, blobs):
-    cr = "(%s, %s)" % (copt(cstr(sess["user"]) if sess["user"] is not None else None, "str"),
-                       copt(cstr(sess["pw"]) if sess["pw"] is not None else None, "str"))
     steps = clist([c_step(sess, st, ob, clients, blobs) for st, ob in zip(sess["steps"], obs)], "step")
-    return "(%s, %s, %s)" % (sess["kind"], cr, steps)
+    return "(%s, %s)" % (sess["kind"], steps)
 
 
 # ---------------------------------------------------------------------------
@@ -690,13 +709,29 @@ def gen_session(rng, clients_n, status=None, kind=None):
             challenge = via is None and rng.random() < 0.04
         steps.append(gen_step(rng, via, cookies, challenge, allow_auth=not (has_creds and kind != "TPlain"),
                               status=status))
+    if has_creds and n > 1 and rng.random() < 0.4:
+        add_credential_changes(rng, kind, user, steps)
     return {"kind": kind, "user": user, "pw": pw, "steps": steps}
+
+
+def add_credential_changes(rng, kind, user, steps, always=False):
+    """options.username / options.password are changed between the sends (on the transport's
+    options, or through the client).  For the challenge-response transport all sends then go to
+    ONE url: urllib's password manager answers for a deeper path with the entry of a shorter one
+    (sessions of that shape are generated apart, under their own finding class)."""
+    for i, st in enumerate(steps[1:], 1):
+        if always or rng.random() < 0.6:
+            u = user if rng.random() < 0.5 else gen_text(rng, colon=False)
+            user = u
+            st["creds"] = (u, gen_text(rng), rng.choice(["transport", "client"]))
+        if kind == "TChallenge":
+            st["path"] = steps[0]["path"]
 
 
 # dedicated sessions for corner behaviours (judged like every other session: model AND specification)
 QUIRKS = ["ce-name-or-value-case", "reply-ce-value-case", "reply-mislabelled", "error-reply-sets-cookie",
           "error-reply-compressed", "colon-in-username", "plain-transport-with-credentials",
-          "caller-authorization-and-credentials"]
+          "caller-authorization-and-credentials", "credential-change-same-url", "credential-change-deeper-path"]
 
 
 def gen_quirk(rng, cat, clients_n):
@@ -705,6 +740,7 @@ def gen_quirk(rng, cat, clients_n):
     for st in s["steps"]:
         st["cookies"] = []
         st["challenge"] = None
+        st.pop("creds", None)
         st["hdrs"] = [(k, v) for k, v in st["hdrs"] if k.lower() not in ("content-encoding", "authorization")]
     st0 = s["steps"][0]
     if cat == "ce-name-or-value-case":
@@ -739,6 +775,31 @@ def gen_quirk(rng, cat, clients_n):
             st["challenge"] = b"credentials required" if s["kind"] == "TChallenge" else None
     elif cat == "plain-transport-with-credentials":
         s["kind"], s["user"], s["pw"] = "TPlain", gen_text(rng, colon=False), gen_text(rng)
+    elif cat == "credential-change-same-url":
+        s = gen_session(rng, clients_n, kind=rng.choice(["TChallenge", "TChallenge", "TBasicPre"]))
+        while len(s["steps"]) < 3:
+            s["steps"].append(gen_step(rng, s["steps"][0]["via"], False, False, False, status=200))
+        s["user"], s["pw"] = gen_text(rng, colon=False), gen_text(rng)
+        for st in s["steps"]:
+            st["creds"] = None
+            st["hdrs"] = [(k, v) for k, v in st["hdrs"] if k.lower() != "authorization"]
+            st["path"] = s["steps"][0]["path"]
+            st["challenge"] = b"credentials required" if s["kind"] == "TChallenge" else None
+            if st["via"] is not None and not (200 <= st["status"] < 300):
+                st["status"] = 200
+        add_credential_changes(rng, s["kind"], s["user"], s["steps"], always=True)
+    elif cat == "credential-change-deeper-path":
+        # credentials first used for a path, then changed, then a request to a deeper path
+        first, deeper = rng.choice([("/svc", "/svc/a"), ("/", "/svc"), ("/other", "/other/x"), ("/", "/other/x")])
+        s = {"kind": "TChallenge", "user": gen_text(rng, colon=False), "pw": gen_text(rng), "steps": []}
+        for i, path in enumerate([first, deeper] + ([rng.choice([first, deeper])] if rng.random() < 0.5 else [])):
+            st = gen_step(rng, None, False, True, False, status=200)
+            st["path"] = path
+            st["hdrs"] = [(k, v) for k, v in st["hdrs"] if k.lower() != "authorization"]
+            if i > 0:
+                st["creds"] = (gen_text(rng, colon=False) if rng.random() < 0.5 else s["user"],
+                               gen_text(rng) + "x", "transport")
+            s["steps"].append(st)
     elif cat == "caller-authorization-and-credentials":
         s["kind"] = rng.choice(["TBasicPre", "TChallenge"])
         s["user"], s["pw"] = gen_text(rng, colon=False), gen_text(rng)
@@ -949,7 +1010,11 @@ def finding_keys(sess, obs, failed):
         _, key, what = PART_KEYS[part]
         if part == 3:
             auth = [v for ob in obs for k, v in ob["headers"] if k.lower() == b"authorization"]
-            if sess["user"] is not None and ":" in sess["user"]:
+            if sess.get("cat") == "credential-change-deeper-path":
+                key, what = "C15:stale-credentials-for-deeper-path", (
+                    "credentials were used for a path and then changed: a Basic challenge for a deeper path of the "
+                    "same transport is still answered with the old username/password")
+            elif sess["user"] is not None and ":" in sess["user"]:
                 key, what = "C15:colon-in-username", ("username %r contains ':': the server splits the Basic credentials at "
                                                       "the first colon and recovers another pair" % sess["user"])
             elif auth and cred_key(auth[-1]) == "C15:urlsafe-base64-credentials":
@@ -1149,7 +1214,8 @@ def run(ck):
             ck.failing_input(key, "%s (transport %s, %d step(s))" % (what, s["kind"], len(s["steps"])), pl)
     xdis = [i for i in resx["x_agrees"] if i not in spec_bad]
     # sessions showing a known finding must still be the model's behaviour
-    xdis += [i for i in resx["x_agrees"] if i in spec_bad and sessions[i]["cat"] in ("error-reply-sets-cookie", "colon-in-username")]
+    xdis += [i for i in resx["x_agrees"] if i in spec_bad and sessions[i]["cat"] in
+             ("error-reply-sets-cookie", "colon-in-username", "credential-change-deeper-path")]
     if xdis:
         disagree["sessions"] = [dict(session_payload(sessions[i]), category=sessions[i]["cat"],
                                      observed=[describe_obs(o) for o in xobs[i]])
